@@ -275,7 +275,7 @@ pub fn run_check(id: &str, tier: Tier) -> i32 {
             let meta = CheckMeta {
                 property: "C11",
                 level: "model_checking",
-                rule: "complete enumeration of substitution configurations: every function from a new window of m variables to an old window of n variables (n, m <= 4 quick / <= 5 thorough), every integer/object kind assignment of the old window, every window offset across the register/spill boundary (x86-64 0..8, AArch64 8..16, RV64 0..9 identity variables in front), with and without all objects aliasing one block, on all three backends. Each case compiles one real Substitute statement, runs it from a pre-state with distinct sentinels and checks the post-state: simultaneous assignment, reference counts (+copies-1), each dropped last reference released exactly once onto the deferred list, and nothing else changed (heap words, heap register, stack pointer, stack above the spill area). Distinct by configuration; all configurations execute generated code.".into(),
+                rule: "complete enumeration of substitution configurations: every function from a new window of m variables to an old window of n variables (n, m <= 4 quick / <= 5 thorough), every integer/object kind assignment of the old window, every window offset across the register/spill boundary (x86-64 0..8, AArch64 8..16, RV64 0..9 identity variables in front), with and without all objects aliasing one block, on all three backends. Beyond the complete space: windows of 6, 7, 9 (thorough 6..12) variables with every rotation, reversal, adjacent swaps, a chain ending in a fan-out, total fan-out, two disjoint cycles and the swap of the two ends, for all-integer / all-object / alternating kinds. Each case compiles one real Substitute statement, runs it from a pre-state with distinct sentinels and checks the post-state: simultaneous assignment, reference counts (+copies-1), each dropped last reference released exactly once onto the deferred list, and nothing else changed (heap words, heap register, stack pointer, stack above the spill area). Distinct by configuration; all configurations execute generated code.".into(),
                 assumptions: vec!["emulators as C06-C08".into(), "pre-state object counts 0/1/2 by block index; aliased block count = holders - 1 + (holders mod 2)".into()],
             };
             finish(&meta, tier, started, rep, Map::new())
@@ -325,7 +325,7 @@ pub fn run_check(id: &str, tier: Tier) -> i32 {
             let meta = CheckMeta {
                 property: "C18",
                 level: "exploration",
-                rule: "(i) every token sequence of length <= 3 (quick) / <= 4 (thorough) over a 58-token alphabet of the lexer (symbols, keywords, names, literals incl. 2^63, comment, whitespace), bare and after two valid prefixes; every string of <= 2 / <= 3 characters over printable ASCII plus multi-byte characters, bare and inside a definition body; (ii) every single-token deletion, and replacement by / insertion of each alphabet token, at every position of a corpus (repository examples, testsuite files incl. the rejected ones, an all-forms program); (iii) boundary literals in five placements; (iv) nesting depth up to 64 (256 thorough) of eleven nestable constructs; (v) entry-point shapes (no main, 0..7 parameters, non-integer parameters/results, duplicate main). Parsing and checking must return; accepted programs with a valid entry point must pass translation, focusing, shrinking, linearization and three code generators without a panic other than the capacity assertions. A slice (all single bytes bare and inside a body, invalid UTF-8, BOM, empty file) goes through the real scc binary (check, compile): no exit status 101, no 'panicked at', no signal. Non-trivial/distinct = distinct input texts.".into(),
+                rule: "(i) every token sequence of length <= 3 (quick) / <= 4 (thorough) over a 58-token alphabet of the lexer (symbols, keywords, names, literals incl. 2^63, comment, whitespace), bare and after two valid prefixes; every string of <= 2 / <= 3 characters over printable ASCII plus multi-byte characters, bare and inside a definition body; (ii) every single-token deletion, and replacement by / insertion of each alphabet token, at every position of a corpus (repository examples, testsuite files incl. the rejected ones, an all-forms program, a program with twin types), and every identifier occurrence replaced by every other identifier of the same program; (iii) boundary literals in five placements; (iv) nesting depth up to 64 (256 thorough) of eleven nestable constructs; (v) entry-point shapes (no main, 0..7 parameters, non-integer parameters/results, duplicate main). Parsing and checking must return, and every error they return is rendered against the source text the way scc reports it (Driver error -> miette report -> text) without a panic; accepted programs with a valid entry point must pass translation, focusing, shrinking, linearization and three code generators without a panic other than the capacity assertions. A slice (all single bytes bare and inside a body, invalid UTF-8, BOM, empty file) goes through the real scc binary (check, compile): no exit status 101, no 'panicked at', no signal. Non-trivial/distinct = distinct input texts.".into(),
                 assumptions: vec!["workers run on a 1 GiB stack; stack exhaustion is outside the property".into()],
             };
             finish(&meta, tier, started, rep, Map::new())
